@@ -160,7 +160,9 @@ def jobs(tier):
     scale = Job("scale-families", scale_space, scale_harness, budget_s=900, path_timeout_s=60.0,
                 bounds={"space": "parametric closed CFGs with a solver-chosen size", "families": {n: ks for n, _, ks in SCALE},
                         "non-termination": "a path exceeding 60 s and again 600 s"})
-    return s1_jobs(tier, harness) + [scale] + front_end_jobs(tier, harness)
+    js = s1_jobs(tier, harness) + front_end_jobs(tier, harness)
+    js.sort(key=lambda j: "S1-N5" in j.name)  # the large jobs last (stable)
+    return js + [scale]
 
 
 class _ReplayTimeout(BaseException):
